@@ -126,7 +126,7 @@ pub fn profile_for(prop: &str) -> Profile {
             p.name = "c14_c16";
             p.w = [18, 4, 8, 2, 5, 5, 3, 10, 4, 6, 8, 3, 14, 1, 14, 1, 0, 0, 0, 0];
             p.env = [16, 2, 1, 3, 0, 0, 2, 0];
-            p.forks = vec![("c15_split", 3)];
+            p.forks = vec![("c15_split", 3), ("c15_relational", 3)];
         }
         "C17" | "C19" => {
             p.name = "c17_c19";
